@@ -198,6 +198,14 @@ pub fn gen_parse(run: &mut Run, seed: u64, thorough: bool) {
                 let mut v = bb.to_vec();
                 v[pos] ^= 0x20;
                 check_parse(&mut sc, &v);
+                // a run of 2, 3, 4, 8 bytes repeated in place ("pskpsk0", "XXXX", "fallbackfallback", "_25519_25519")
+                for len in [2usize, 3, 4, 8] {
+                    if pos + len <= bb.len() {
+                        let mut v = bb[..pos + len].to_vec();
+                        v.extend_from_slice(&bb[pos..]);
+                        check_parse(&mut sc, &v);
+                    }
+                }
             }
             let picks = if thorough { alphabet.len() } else { 4 };
             for _ in 0..picks {
@@ -233,6 +241,9 @@ pub fn gen_parse(run: &mut Run, seed: u64, thorough: bool) {
         "Noise_é_25519_AESGCM_SHA256", "Noise_NNNé_25519_AESGCM_SHA256", "Noise_XX_25519_AESGCM_sha256", "Noise_XX_P256_XChaChaPoly_BLAKE2s",
         "Noise_XXpsk0000000000000000000000000001_25519_AESGCM_SHA256", "Noise_XXpsk99999999999999999999_25519_AESGCM_SHA256",
         "Noise_Kpsk٣_25519_AESGCM_SHA256", "Noise_XX_25519_AESGCM_SHA256\n", " Noise_XX_25519_AESGCM_SHA256",
+        "Noise_XX_25519_AESGCM_SHA256 ", "\tNoise_XX_25519_AESGCM_SHA256", "Noise_XX_25519_AESGCM_SHA256\r\n", "\u{a0}Noise_XX_25519_AESGCM_SHA256",
+        "Noise_XXpskpsk0_25519_AESGCM_SHA256", "Noise_XXfallback+pskpsk2_25519_AESGCM_SHA256", "Noise_XXpskpskpsk1_25519_AESGCM_SHA256",
+        "Noise_XXpsk0x_25519_AESGCM_SHA256", "Noise_XXpsk 0_25519_AESGCM_SHA256", "Noise_XXpsk+0_25519_AESGCM_SHA256", "Noise_XXPSK0_25519_AESGCM_SHA256",
     ] {
         check_parse(&mut sc, s.as_bytes());
     }
